@@ -94,9 +94,16 @@ class Poisson(DiscreteRandomVariable):
         u = unit()
         k = 0
         p = 0
+        log_mu = math.log(self.mu)
         while True:
-            p += self.pmf(k)
-            if p > u:
+            # pmf(k) by logarithms: mu**k and k! overflow, and exp(-mu)
+            # underflows, long before their quotient does.
+            q = math.exp(k*log_mu - self.mu - math.lgamma(k+1))
+            p += q
+            # Past the mean the terms only shrink: once they no longer change
+            # the sum, u lies within the rounding error of the total mass and
+            # the loop would never end.
+            if p > u or (k > self.mu and p + q == p):
                 break
             k += 1
         return k
